@@ -50,11 +50,11 @@ CHECKS = {
     note=TB + "; only the context/key-forwarding clause is claimed"),
  "C18": dict(
     engine="derive",
-    technique="volatile/barrier must-follow path rule over the IR of the 7 erase entry points and their primitives; thorough: static inspection of LTO-compiled client machine code (gcc-12, clang-14, -O0..-O3)",
+    technique="volatile/barrier must-follow path rule over the IR of the 7 erase entry points and their primitives; byte-lane abstract interpretation of the fill word (which byte of the value parameter each stored byte holds); quotient/remainder agreement of the word/tail count split; thorough: static inspection of LTO-compiled client machine code (gcc-12, clang-14, -O0..-O3)",
     category="other",
-    text="Quick decides the mechanism C offers against dead-store elimination: every write into dest that can be followed by a success return is volatile, or barrier-followed on all paths, or done by a callee with that property. Thorough additionally compiles 448 client programs whose erased buffer is dead (stack / heap-then-free) together with the library's current sources and checks in the disassembly that the erase survived; nothing is executed.",
+    text="Quick decides the mechanism C offers against dead-store elimination: every write into dest that can be followed by a success return is volatile, or barrier-followed on all paths, or done by a callee with that property. Two value/extent clauses of 'the n addressed bytes hold the fill value' are decided structurally for the fill primitives: every one of their 95 stores into dest holds the value parameter's bytes replicated over the store width (byte-lane domain: zext/sext/shift/or/and/phi; a sign-extended or missing lane is reported), the entry points hand their own value parameter (or 0) down, and where the byte count is split into words and a tail, count >> k and count & (2^k - 1) are taken from the same value. Thorough additionally compiles 448 client programs whose erased buffer is dead (stack / heap-then-free) together with the library's current sources and checks in the disassembly that the erase survived; nothing is executed.",
     design_ref="DESIGN.md §4 C18",
-    note=TB + "; compilers honour volatile and asm/fence barriers; 'every optimisation level and every client' is a quantifier over compilers that the thorough tier samples with the two installed ones; the clause 'no more than the requested bytes are changed' is C01's"),
+    note=TB + "; compilers honour volatile and asm/fence barriers; 'every optimisation level and every client' is a quantifier over compilers that the thorough tier samples with the two installed ones; the clause 'no more than the requested bytes are changed' is otherwise C01's (the unrolled word loops themselves are outside its reach)"),
  "C05": dict(
     engine="pathflags",
     technique="path-sensitive abstract interpretation (symbolic store, linear path facts decided by Fourier-Motzkin, opaque loop phis, bounded inlining of helpers and nested exported callees) with a handler-count/code typestate; return conventions per function",
